@@ -18,16 +18,21 @@ let () = each_line (fun l ->
     expect t "S"; let sa = read_ta t in let sb = read_ta t in let n = n_of_int (num t) in
     expect t "I"; let ia = read_ta t in let ib = read_ta t in
     let truth = incl_dec a b in
+    (* the (A) model of the recursive downward algorithm is exponential (no caches): it is only executed on tiny pairs *)
+    let small = List.length a.rules <= 4 && List.length b.rules <= 4 in
+    let down_model = if small then down_incl a b (nat_of_int 10) else None in
     let fails = ref [] in
     List.iteri (fun i v ->
       let ok = (match v with "0" -> gate_verdict a b false | "1" -> gate_verdict a b true | "T" -> true (* time limit: inconclusive *) | _ -> false) in
       if not ok then fails := names.(i) :: !fails) vs;
     if not (prepared_lang a b sa sb) then fails := "sanitize_lang" :: !fails;
     if not (ta_same a ia && ta_same b ib) then fails := "operand_changed" :: !fails;
-    let drift = (if prepared_shape sa sb n then [] else ["sanitize_shape"]) @ (if up_ac a b = truth then [] else ["antichain_model"]) in
+    let drift = (if prepared_shape sa sb n then [] else ["sanitize_shape"]) @ (if up_ac a b = truth then [] else ["antichain_model"])
+      @ (match down_model with Some v -> if v = truth then [] else ["down_model"] | None -> []) in
     (if !fails = [] then "OK" else "FAIL " ^ String.concat "," (List.rev !fails))
     ^ (if drift = [] then "" else " DRIFT " ^ String.concat "," drift)
     ^ (if truth then " included" else " notincluded")
     ^ (if is_empty a then " Aempty" else " Anonempty") ^ (if is_empty b then " Bempty" else " Bnonempty")
     ^ (if List.mem "T" vs then " timeout" else "")
+    ^ (if small then (match down_model with None -> " down_model_out_of_fuel" | Some _ -> " down_model_run") else "")
   | _ -> "FAIL exception " ^ o)
